@@ -224,6 +224,13 @@ where
                             viol("translate-concrete-type", "type changed".into());
                         }
                     }
+                    Ok(Err(TranslateErr::OuterError(_)))
+                        if build::<bitcoin::PublicKey, Ctx>(t, &PkEnv { form }).is_err() =>
+                    {
+                        // the structure with the mapped keys is itself illegal in the context
+                        // (e.g. 8 uncompressed keys exceed the 520-byte P2SH limit)
+                        bump(&mut cen, "translation_and_direct_build_both_refused");
+                    }
                     Ok(Err(_)) => viol("translate-concrete-fails", "translation to concrete keys failed".into()),
                     Err(e) => viol("translate-panic", e),
                 }
